@@ -59,7 +59,7 @@ def flags(ops, case):
     """Structural input classes (booleans) used to key known findings: an operation whose
     expression is rewritten when a later step selects columns ("..._then"), and friends."""
     head = ops[:-1]
-    assigned = [o["name"] for o in ops if o["op"] == "assign"]
+    assigned = [n for o in ops if o["op"] == "assign" for n in [o["name"]] + [m[0] for m in o.get("more", [])]]
     foreign = [i for i, o in enumerate(ops) if o["op"] == "assign" and (D.uses(o, "other") or D.uses(o, "root"))]
     return dict(
         frame_where_then=any(o["op"] in ("where", "mask") for o in head),
@@ -102,6 +102,8 @@ def check(spec):
             known_div=case.known_div,
             other=envp.used_other,
             obj_col=any(c["kind"] == "obj" for c in spec["frame"]["columns"]),
+            zero_rows=len(case.pdf) == 0,
+            str_accessor=any(f.startswith("str.") for f in feats),
             **flags(ops, case),
         )
         loose = False
